@@ -7,6 +7,27 @@ fn real_vec(v: &[i64]) -> Vec<(f64, f64)> {
     v.iter().map(|&x| (x as f64, 0.0)).collect()
 }
 
+/// the same integers scaled by 2^-e (exact): small magnitudes are inside the property's range as well
+fn real_vec_scaled(v: &[i64], e: i32) -> Vec<(f64, f64)> {
+    v.iter().map(|&x| (x as f64 * 2f64.powi(-e), 0.0)).collect()
+}
+
+/// a real dyadic vector as integers times 2^-e (smallest such e <= 80)
+fn dyadic(v: &[(f64, f64)]) -> (Vec<i128>, i32) {
+    for e in 0..=80 {
+        let s = 2f64.powi(e);
+        if v.iter().all(|x| (x.0 * s).fract() == 0.0 && (x.0 * s).abs() < 1e30) {
+            return (v.iter().map(|x| (x.0 * s) as i128).collect(), e);
+        }
+    }
+    (v.iter().map(|x| x.0 as i128).collect(), 0)
+}
+
+/// tolerance 2^-30 * product of the operands' norms; an operand that is zero must give exactly zero
+fn tol2(eps: f64, na: f64, nb: f64) -> f64 {
+    eps * na * nb
+}
+
 fn gen_vec(rng: &mut Prng, n: usize, lim: i64, style: u64) -> Vec<i64> {
     (0..n)
         .map(|i| match style {
@@ -48,6 +69,19 @@ pub fn generate(tier: &str, rng: &mut Prng) -> Vec<Case> {
             let b = gen_vec(rng, n, 1 << 10, (k / 5) % 5);
             ops.push(Case::new(format!("cplx_roundtrip {}", cfmt(&real_vec(&a)))));
             ops.push(Case::new(format!("cplx_mul {} {}", cfmt(&real_vec(&a)), cfmt(&real_vec(&b)))));
+            // the same operands at small scales (a constant polynomial and pure tones included below)
+            let (ea, eb) = [(40, 30), (20, 0), (0, 15), (54, 40)][(k % 4) as usize];
+            ops.push(Case::new(format!("cplx_roundtrip {}", cfmt(&real_vec_scaled(&a, ea)))));
+            ops.push(Case::new(format!("cplx_mul {} {}", cfmt(&real_vec_scaled(&a, ea)), cfmt(&real_vec_scaled(&b, eb)))));
+            if k < 3 {
+                // constants and monomials
+                let mut c = vec![0i64; n];
+                c[if k == 0 { 0 } else { rng.below(n as u64) as usize }] = [3, -(1 << 14), 1][k as usize];
+                ops.push(Case::new(format!("cplx_roundtrip {}", cfmt(&real_vec(&c)))));
+                ops.push(Case::new(format!("cplx_mul {} {}", cfmt(&real_vec(&c)), cfmt(&real_vec(&b)))));
+                ops.push(Case::new(format!("cplx_mul {} {}", cfmt(&real_vec(&a)), cfmt(&real_vec(&c)))));
+                ops.push(Case::new(format!("cplx_split_of_fft {}", cfmt(&real_vec(&c)))));
+            }
             ops.push(Case::new(format!("cplx_split_of_fft {}", cfmt(&real_vec(&a)))));
             // a transform-domain vector: complex entries
             let f: Vec<(f64, f64)> = (0..n).map(|_| (rng.range(-1 << 20, 1 << 20) as f64 / 64.0, rng.range(-1 << 20, 1 << 20) as f64 / 64.0)).collect();
@@ -86,7 +120,7 @@ pub fn oracle(op: &[&str], out: &str) -> Verdict {
         "cplx_roundtrip" => {
             let a = cparse(op[1]);
             let got = cparse(out);
-            match close(&got, &a, eps * l2(&a).max(1.0)) {
+            match close(&got, &a, eps * l2(&a)) {
                 None => Verdict::Pass,
                 Some(w) => Verdict::Fail(format!("ifft(fft(a)) differs from a by {w} (n = {})", a.len())),
             }
@@ -94,11 +128,12 @@ pub fn oracle(op: &[&str], out: &str) -> Verdict {
         "cplx_mul" => {
             let a = cparse(op[1]);
             let b = cparse(op[2]);
-            let ai: Vec<i128> = a.iter().map(|x| x.0 as i128).collect();
-            let bi: Vec<i128> = b.iter().map(|x| x.0 as i128).collect();
-            let exact: Vec<(f64, f64)> = crate::c17::negacyc(&ai, &bi).iter().map(|&x| (x as f64, 0.0)).collect();
+            let (ai, ea) = dyadic(&a);
+            let (bi, eb) = dyadic(&b);
+            let sc = 2f64.powi(-(ea + eb));
+            let exact: Vec<(f64, f64)> = crate::c17::negacyc(&ai, &bi).iter().map(|&x| (x as f64 * sc, 0.0)).collect();
             let got = cparse(out);
-            match close(&got, &exact, eps * l2(&a).max(1.0) * l2(&b).max(1.0)) {
+            match close(&got, &exact, tol2(eps, l2(&a), l2(&b))) {
                 None => Verdict::Pass,
                 Some(w) => Verdict::Fail(format!("ifft(fft(a).*fft(b)) differs from the exact negacyclic product by {w} (n = {})", a.len())),
             }
